@@ -37,8 +37,10 @@ func basePolicy(k int) seccomp.Policy {
 		names = append(names, "fork", "vfork")
 	}
 	conds := make([]seccomp.Condition, 0, 8)
-	conds = append(conds, seccomp.Condition{Argument: 0, Operation: seccomp.Equal, Value: uint64(k)},
-		seccomp.Condition{Argument: 1, Operation: seccomp.BitsSet, Value: 0x10000000})
+	conds = append(conds, seccomp.Condition{Argument: 3, Operation: seccomp.Equal, Value: uint64(k)},
+		seccomp.Condition{Argument: 1, Operation: seccomp.BitsSet, Value: 0x10000000},
+		seccomp.Condition{Argument: 2, Operation: seccomp.LessThan, Value: 77},
+		seccomp.Condition{Argument: 0, Operation: seccomp.NotEqual, Value: 5}) // (arguments deliberately not in ascending order)
 	nwc := make([]seccomp.NameWithConditions, 0, 4)
 	nwc = append(nwc, seccomp.NameWithConditions{Name: "clone", Conditions: conds},
 		seccomp.NameWithConditions{Name: "clone", Conditions: []seccomp.Condition{{Argument: 2, Operation: seccomp.GreaterThan, Value: 7}}},
